@@ -4,7 +4,7 @@ from cryptography import x509
 from cryptography.exceptions import InvalidSignature
 from cryptography.x509 import (
     ExtendedKeyUsage,
-    GeneralName,
+    DirectoryName,
     Name,
     SubjectAlternativeName,
     Version,
@@ -247,8 +247,13 @@ def verify_tpm(
             f"Certificate missing extension {ExtensionOID.SUBJECT_ALTERNATIVE_NAME} (TPM)"
         )
 
-    # `type(tcg_at_tpm_values)` return "<class 'cryptography.x509.name.Name'>" so ignore mypy
-    tcg_at_tpm_values: Name = ext_subject_alt_name.get_values_for_type(GeneralName)[0]  # type: ignore[arg-type, assignment]
+    # The TPM attributes are carried in a directoryName
+    directory_names = ext_subject_alt_name.get_values_for_type(DirectoryName)
+    if len(directory_names) < 1:
+        raise InvalidRegistrationResponse(
+            "Certificate Subject Alt Name did not contain a directoryName (TPM)"
+        )
+    tcg_at_tpm_values: Name = directory_names[0]
     tcg_at_tpm_manufacturer = None
     tcg_at_tpm_model = None
     tcg_at_tpm_version = None
